@@ -197,8 +197,13 @@ def run(ctx):
         half = not (cfgf & peerf & connlib.DFLAG_DIST_HDR_ATOM_CACHE) and rng.random() < 0.4
         stream, want, has_frag = build_history(rng, cfgf, peerf, half)
         n_out = sum(1 if w[0] != "junk" else w[1] for w in want)
-        chunks = connlib.chunked(rng, stream)
-        case = SEP.join(["conn %d %d 1" % (cfgf, peerf), "P " + ",".join(c.hex() for c in chunks) if stream else "X", "X"] + ["H" if half else "R"] * (n_out + 2))
+        # a peer may start talking at once: a share of the histories has its first bytes in the very write that carries
+        # the handshake ack
+        cut = rng.choice([0, 0, 1, 4, 5, len(stream) // 2, len(stream)]) if stream and rng.random() < 0.35 else 0
+        early, stream_rest = stream[:cut], stream[cut:]
+        chunks = connlib.chunked(rng, stream_rest)
+        case = SEP.join(["conn %d %d 1%s" % (cfgf, peerf, " E" + early.hex() if early else ""),
+                         "P " + ",".join(c.hex() for c in chunks) if stream_rest else "X", "X"] + ["H" if half else "R"] * (n_out + 2))
         WANT[case] = (want, has_frag)
         cases.append(case)
     # the frame that used to crash the task, followed by a message that must still arrive
@@ -237,7 +242,7 @@ def run(ctx):
 
     def classify(c, impl):
         want, has_frag = WANT[c]
-        out = ["negotiated:" + ("hdr+frag" if has_frag else "hdr" if int(c.split()[1]) & int(c.split()[2]) & 0x2000 else "pass-through"),
+        out = ["early-bytes:" + ("yes" if " E" in c.split(SEP)[0] else "no"), "negotiated:" + ("hdr+frag" if has_frag else "hdr" if int(c.split()[1]) & int(c.split()[2]) & 0x2000 else "pass-through"),
                "api:" + ("receive_message_from_read_half" if SEP + "H" in c else "receive_message")]
         for w in want:
             out.append("frame:" + (w[2] if w[0] == "junk" else "fragmented" if len(w) > 3 else "message"))
